@@ -13,6 +13,7 @@ import xml.etree.ElementTree as ET
 
 def main() -> None:
     jobs = sys.argv[sys.argv.index('-n') + 1] if '-n' in sys.argv else None
+    paths = [a for i, a in enumerate(sys.argv[1:], 1) if a.endswith('.py') or a.endswith('/')]
     with open('/root/.vp/BASELINE.json') as f:
         base = json.load(f)
     want = set(base['stable_pass'])
@@ -22,6 +23,7 @@ def main() -> None:
                '--continue-on-collection-errors', f'--junitxml={xml}']
         if jobs:
             cmd += ['-n', jobs]
+        cmd += paths
         env = dict(os.environ)
         env.pop('INVESTMENTSYSTEMS_STATIC_FRAME_VERIF', None)
         # the hypothesis example database under /repo/.hypothesis is git-ignored state: keep it as found,
@@ -48,6 +50,9 @@ def main() -> None:
                 passed.add(name)
             else:
                 why[name] = (bad[0].get('message') or '')[:300].replace('\n', ' ')
+    if paths:
+        mods = {p.rstrip('/').replace('/', '.')[:-3] if p.endswith('.py') else p.rstrip('/').replace('/', '.') for p in paths}
+        want = {w for w in want if any(w.startswith(m) for m in mods)}
     missing = sorted(want - passed)
     print(tail[0] if tail else '')
     print(f'stable_pass={len(want)} passed_now={len(passed)} missing={len(missing)}')
